@@ -39,6 +39,16 @@ TAG_LDA = 'scml:SCML_Supervised._generate_bases_LDA'
 DELTA = 0.001
 
 
+def single_thread():
+  """tiny problems: one BLAS/OpenMP thread is faster and keeps the wall time independent of the machine load"""
+  try:
+    from threadpoolctl import threadpool_limits
+    return threadpool_limits(limits=1)
+  except Exception:
+    import contextlib
+    return contextlib.nullcontext()
+
+
 # ---------------------------------------------------------------------------------------------------------------
 # independent evaluation of the documented scheme
 # ---------------------------------------------------------------------------------------------------------------
@@ -207,7 +217,7 @@ def check_case(ml, cfg):
   with warnings.catch_warnings(record=True) as caught:
     warnings.simplefilter('always')
     try:
-      with np.errstate(all='ignore'):
+      with np.errstate(all='ignore'), single_thread():
         est.fit(*data)
     except Exception as e:
       return ('array-basis' if given is not None else 'fit-completes'), 'fit raises %s: %s' % (type(e).__name__, str(e)[:200])
